@@ -58,7 +58,13 @@ var c19Vals = []c19Val{
 	{"inloopkey", "for i = 3 {if i == 0 {X = {i: \"a\"}}}", "{1: \"a\"}", ""}, // bound inside a loop to a literal holding the loop variable
 	{"inloopval", "for i = 1:4 {if i == 1 {X = [i, [i], {\"k\": i}]}}", "[2, [2], {\"k\": 2}]", ""},
 	{"namedfunc", "func X(x) {self}", "x => x", "func zother(x) {self}"}, // same text, another name: self and printing tell them apart
-	{"poszero", "0.0", "1.5", "(-0.0)"},                                                           // -0.0 == 0.0 but 1/X tells them apart
+	{"poszero", "0.0", "1.5", "(-0.0)"},                                  // -0.0 == 0.0 but 1/X tells them apart
+	// containers in their large representation with few elements (a map shrunk by del, a short slice of a long array), and a long
+	// array whose elements have equal-comparing neighbours of another type or sign
+	{"shrunkmap", "zm = {\"a\": 1, \"b\": 2, \"c\": 3, \"d\": 4, \"e\": 5, \"f\": 6}; del(zm.f); del(zm.e); del(zm.d); X = zm + {}", `{"a": 9, "b": 2, "c": 3}`, ""},
+	{"shrunkmapf", "func zmk() {m = {\"a\": 1, \"b\": 2, \"c\": 3, \"d\": 4, \"e\": 5, \"f\": 6}; del(m.f); del(m.e); del(m.d); m}; X = zmk()", `{"a": 9, "b": 2, "c": 3}`, ""},
+	{"shortslice", "func zsl() {a = [1, 2, 3, 4, 5, 6, 7, 8, 9, 10]; a[0:3]}; X = zsl()", "[9, 2, 3]", ""},
+	{"bigmixed", "[0.0, [1], {\"a\": 1}, 4, 5, 6, 7, 8, 9, 10, 11]", "[0.0, [1], {\"a\": 1}, 4, 5, 6, 7, 8, 9, 10, 12]", "[(-0.0), [1], {\"a\": 1}, 4, 5, 6, 7, 8, 9, 10, 11]"},
 	// functions that differ only in where one statement ends and the next begins
 	{"fnsep-xor", "x => {y = x + 1; y; ^x}", "x => {y = x + 1; y ^ x}", ""},
 	{"fnsep-minus", "x => {y = 3; y; -x}", "x => {y = 3; y - x}", ""},
@@ -73,7 +79,7 @@ var c19Vals = []c19Val{
 var c19Attempts = []string{
 	"X = V", "X := V", "X = S", "X = X", "X = Q", "X := Q",
 	"X++", "X--", "++X", "--X",
-	"X[0] = 99", "X[-1] = 99", `X.a = 99`, `X["a"] = 99`, `X["newkey"] = 1`, `X.zz = 1`, `del(X["a"])`, `del(X.a)`, `del(X[0])`,
+	"X[0] = 99", "X[-1] = 99", "X[0] = (-0.0)", "X[1] = [1.0]", "X[2] = {\"a\": 1.0}", "X[-1] = 11.0", "X.a = 1.0", "X[\"b\"] = 2.0", "func g10() {X[1] = [1.0]}; g10()", `X.a = 99`, `X["a"] = 99`, `X["newkey"] = 1`, `X.zz = 1`, `del(X["a"])`, `del(X.a)`, `del(X[0])`,
 	"for X = 3 {}", "for X = 1:3 {}", "for X = [V, V] {}", "for X = 3 {X}",
 	"func fp(X) {X}; fp(V)", "(X => X)(V)", "func fq(X) {X = V; X}; fq(S)", "func fr(a, X) {X}; fr(1, 7)",
 	"func g1() {X = V}; g1()", "func g2() {X := V; X}; g2()", "h1 = () => {X = V}; h1()", "func g3() {inner = () => {X = V}; inner()}; g3()",
